@@ -2,6 +2,7 @@
 1. definitions: KAT_EC (published multiples, identities on the SM2 and the sample curve) and MC_EC_toy (group axioms, Mul = repeated
    addition, decoder accept set, all exhaustive on toy curves) validate spec/algo/EC.tla itself;
 2. MC_C05 explores the register machine per scenario family (one JVM each) and emits every transition with the affine result / verdict;
+   MC_C05nat does the same for the scalar field (obj/NatMachine.tla over internal/bigmod: loaders, Add/Sub/Mul/Exp/Inverse, observers);
 3. the traces are replayed through elliptic.Curve, internal point type, ecdh and sm2 key constructors under every field-arithmetic tier."""
 import os
 from .. import core, cfgs
@@ -59,6 +60,16 @@ def run(ctx):
                                     BoothDig5=S([31]), RunEdges=S([0, 64, 256]), Lens=S([0, 1, 31, 32, 33, 40]), SmallKs=S([0, 1, 5]), NMulPts=1,
                                     NMulScalars=2, CheckModN="TRUE", OutFile=core.tla_str(os.path.join(ctx.scratch, "c05modn.ndjson"))),
                      invariants=("RegsOnCurve", "CodecIdentity", "TypeOK")))
+    # the scalar field: internal/bigmod as a two-register machine over 20 moduli (obj/NatMachine.tla)
+    natout = os.path.join(ctx.scratch, "c05nat.ndjson")
+    allm = S(range(1, 21))
+    if quick:
+        natc = dict(Seed=ctx.seed, Fams=q(["arith", "load"]), ModIdx=allm, BigFrom=16, NRnd=2, MaxOps=2, FullPairs="FALSE",
+                    LoadLens=S([0, 1, 7, 8, 9, 31, 32, 33, 40, 64]))
+    else:
+        natc = dict(Seed=ctx.seed, Fams=q(["arith", "load"]), ModIdx=allm, BigFrom=18, NRnd=8, MaxOps=3, FullPairs="TRUE", LoadLens=S(range(0, 82)))
+    jobs.append(dict(module="MC_C05nat", name="MC_C05nat", view="View", workers=4 if quick else 8, timeout=3000, heap="4g",
+                     constants=dict(natc, OutFile=core.tla_str(natout)), invariants=("Reduced",), properties=("InverseSound", "StepLaws")))
     jobs.append(dict(module="KAT_EC", name="KAT_EC", constants={}, init_next=("Init", "Next"), workers=1, timeout=600, heap="1g"))
     jobs += toys
     ctx.tlc_many(jobs, parallel=len(jobs))
@@ -72,6 +83,15 @@ def run(ctx):
     ctx.replay_all(out, cfgs.K_EC, per_trace_timeout=60)
     ctx.binding_guard(out, cfgs.K_EC[3])
     ctx.sample_traces(out)
+
+    ctx.replay_all(natout, cfgs.K_EC, per_trace_timeout=60)
+    ctx.binding_guard(natout, cfgs.K_EC[3], field="a")
+    ctx.sample_traces(natout)
+
+    def natkey(t):
+        st = t["steps"]
+        return (st[0]["m"][:16], len(st[0]["m"]), tuple((s["op"], s.get("how", ""), s.get("src", ""), s.get("in", s.get("e", ""))[:24], s.get("n", 0), s["a"][-12:], s["b"][-12:]) for s in st[1:]))
+    ctx.count_distinct(natout, natkey)
 
     def key(t):
         st = t["steps"]
@@ -87,9 +107,14 @@ def run(ctx):
         "documented behaviour modelled: internal point methods and P256OrdInverse/P256OrdMul take exactly 32-byte scalars (other lengths: error expected); "
         "ecdh/sm2 NewPrivateKey accept 32-byte d in [1, n-2] (d = n-1 not compared for ecdh); ecdh/sm2 NewPublicKey and elliptic.Unmarshal accept the uncompressed form only; "
         "IsOnCurve is false for (0,0), negative and out-of-range coordinates",
+        "scalar field (internal/bigmod): 20 moduli (the library's four, plus moduli chosen for limb geometry: 1 limb, top limb = 1, all-ones limbs, 2/3/5/9 limbs, "
+        "1024/1536/2048-bit unrolled paths, composite, even); register contents are boundary classes relative to m and to the 64-bit limb grid plus pseudo-random residues; "
+        "operands that the documentation leaves open are not generated (byte strings longer than the limb size with leading zeros, Exp on even moduli, ExpShortVarTime(0), "
+        "TrailingZeroBitsVarTime(0), aliasing of Exp/Inverse outputs)",
         "backends: amd64 assembly with ADX+BMI2, with cpu.adx=off, with cpu.bmi2=off (both select the plain MULQ path), and -tags purego (fiat-crypto); arm64/s390x/ppc64le assembly is out of reach of this machine",
     ]
     return ctx.finish(rule="one case per TLC transition of MC_C05: (family, point classes of the registers, sequence of operations with scalar class / byte length / mutation / form); "
                            "each replayed through elliptic.Curve, internal point type (3 aliasing patterns), ecdh and sm2 key constructors, in 4 backend configurations; "
-                           "distinct = distinct such tuples; non-trivial = a point, scalar or verdict was compared",
+                           "plus one case per transition of MC_C05nat: (modulus, register classes, operation sequence) on internal/bigmod in the same configurations; "
+                           "distinct = distinct such tuples; non-trivial = a point, scalar, residue or verdict was compared",
                       exhaustive=False)
